@@ -56,6 +56,7 @@ INT, BOOL, STR, NONE = "int", "bool", "str", "none"
 COLOR, KIND, MTYPE, PIECE, MOVE, POS, SC, REASON, DELTA = ("Color", "Kind", "MoveType", "Piece", "Move", "Position",
                                                            "StoneCounts", "WinReason", "delta")
 CONFIG, CHAR = "Config", "char"
+PYVAL = "pyval"
 FLOAT, TREE, CHILD, PROBS, ENGINE, SPCFG, TRANSCRIPT = "float", "tree", "child", "probs", "engine", "spcfg", "Transcript"
 
 
@@ -79,7 +80,7 @@ def O(t):
 COQ_BASE = {INT: "Z", BOOL: "bool", STR: "string", COLOR: "color", KIND: "kind", MTYPE: "mtype", PIECE: "piece",
             MOVE: "mv", POS: "position", SC: "stonecounts", REASON: "reason", DELTA: "delta", CONFIG: "config", CHAR: "Z",
             FLOAT: "Q", TREE: "otree", CHILD: "mv * position", PROBS: "oprobs", ENGINE: "engine", SPCFG: "sp_config",
-            TRANSCRIPT: "transcript"}
+            TRANSCRIPT: "transcript", PYVAL: "pyval"}
 
 
 def coq_type(t, top=True):
@@ -210,6 +211,7 @@ mkPiece mkMove mkPos mkSC mkDelta pcolor pkind size ply board wstones wcaps bsto
 color_eqb kind_eqb mtype_eqb reason_eqb zlen zsum upd sq getz updz has_road config mkCfg csize cpieces ccaps fuel fuel'
 mk_position py_tuple2_update py_try py_unpack2 py_unpack3 py_list_repeat py_str_int py_int_str py_isdigit py_isascii
 py_join py_split1 pystr ch pystr_eqb rev concat repeat py_uncons pair_eqb list_eqb py_opt_append
+py_chr pyval VStr VInt py_str_val py_dict_get_default
 py_int_sqrt_float py_tuple2_of_list py_mapM otree oprobs engine transcript sp_config answer Q
 engine_analyze engine_tree_probs child_move child_position py_fdiv_int py_fabs py_fge tr_new py_zeros2 inject_Z py_enumerate py_dict_get_last mv_eqb
 Ok Illegal Crash ret bind embed res_map len py_index py_getitem py_setitem py_bound py_slice truthy_list py_range
@@ -236,6 +238,8 @@ EQB = {MOVE: "mv_eqb", CHAR: "Z.eqb", INT: "Z.eqb", COLOR: "color_eqb", KIND: "k
 def eqb_term(t):
     if t == BOOL:
         return "Bool.eqb"
+    if t == L(CHAR):
+        return "pystr_eqb"
     if isinstance(t, str) and t in EQB:
         return EQB[t]
     if isinstance(t, tuple) and t[0] == "tuple" and len(t) == 3:
@@ -515,6 +519,7 @@ class Translator:
         self.while_fuel = {}
         self.cur_alias = {}
         self.cur_file = "GameGen"
+        self.local_hints = {}
         self.coq_names = set()
 
     # ------------------------------------------------------------------ source lookup
@@ -682,6 +687,14 @@ class Translator:
         """value of type v.ty where `want` is expected (None / T -> Optional[T]; int -> float)"""
         if want is None or v.comp:
             return v
+        if want == PYVAL and v.ty in (L(CHAR), CHAR, INT):
+            t = {INT: app("VInt", v.term), CHAR: app("VStr", f"[{v.term}]")}.get(v.ty) or app("VStr", v.term)
+            return V(v.pre, t, PYVAL)
+        if want == L(PYVAL) and v.ty in (L(L(CHAR)), L(CHAR), L(INT)) and v.ty != L(CHAR):
+            f = "VStr" if v.ty == L(L(CHAR)) else "VInt"
+            return V(v.pre, app("map", f, v.term), L(PYVAL), False, v.fresh)
+        if want == L(PYVAL) and v.ty == L(CHAR):      # a list of one-character strings (chr(..) for ..)
+            return V(v.pre, app("map", "(fun c => VStr [c])", v.term), L(PYVAL), False, v.fresh)
         if want == FLOAT and v.ty == INT:
             return V(v.pre, app("inject_Z", v.term), FLOAT)
         if want == L(FLOAT) and v.ty == L(INT):
@@ -922,6 +935,8 @@ class Translator:
         b = self.pure(fn, e.right, env)
         pre = a.pre + b.pre
         islist = lambda t: isinstance(t, tuple) and t[0] == "list"  # noqa
+        if isinstance(e.op, ast.Add) and a.ty == L(PYVAL) and islist(b.ty) and b.ty != L(PYVAL):
+            b = self.coerce(b, L(PYVAL), e)
         if isinstance(e.op, ast.Add) and islist(a.ty) and islist(b.ty):
             return V(pre, f"{opd(a.term)} ++ {opd(b.term)}", unify(a.ty, b.ty, e), False, True)
         if isinstance(e.op, ast.Add) and {a.ty, b.ty} <= {L(CHAR), CHAR}:     # str + one-character str
@@ -1048,6 +1063,19 @@ class Translator:
                 fail(e, "range of non-int")
             pre = sum((v.pre for v in vs), [])
             return V(pre, app("py_range" if len(vs) == 1 else "py_range2", *[v.term for v in vs]), L(INT))
+        if isinstance(e, ast.Call) and isinstance(e.func, ast.Attribute) and e.func.attr == "items" and not e.args \
+                and not e.keywords:
+            d = self.pure(fn, e.func.value, env)
+            if isinstance(d.ty, tuple) and d.ty[0] in ("dict", "dictc"):
+                return V(d.pre, d.term, L(T(d.ty[1], d.ty[2])))
+        if isinstance(e, ast.Call) and isinstance(e.func, ast.Name) and e.func.id == "map" and not env.has("map") \
+                and len(e.args) == 2 and isinstance(e.args[0], ast.Name) and e.args[0].id == "str" and not e.keywords:
+            v = self.iterable(fn, e.args[1], env)          # map(str, l)
+            if v.ty == L(PYVAL):
+                return self.force(fn, V(v.pre, app("py_mapM", "py_str_val", v.term), L(L(CHAR)), True))
+            if v.ty == L(L(CHAR)):
+                return v
+            fail(e, f"map(str, ..) over a {v.ty}")
         if isinstance(e, ast.Call) and isinstance(e.func, ast.Name) and e.func.id == "enumerate" \
                 and not env.has("enumerate") and len(e.args) == 1 and not e.keywords:
             v = self.iterable(fn, e.args[0], env)
@@ -1089,12 +1117,23 @@ class Translator:
     # ------------------------------------------------------------------ calls
     def call(self, fn, e, env, want=None):
         f = e.func
+        if isinstance(f, ast.Attribute) and f.attr == "get" and len(e.args) == 2 and not e.keywords:
+            d = self.pure(fn, f.value, env)
+            if isinstance(d.ty, tuple) and d.ty[0] == "dict":      # d.get(k, default) on a dict literal
+                k = self.pure(fn, e.args[0], env)
+                dv = self.pure(fn, e.args[1], env, d.ty[2])
+                if k.ty != d.ty[1]:
+                    fail(e, "dict.get with a key of another type")
+                unify(dv.ty, d.ty[2], e)
+                return V(d.pre + k.pre + dv.pre, app("py_dict_get_default", eqb_term(d.ty[1]), d.term, k.term, dv.term), d.ty[2])
         if isinstance(f, ast.Name) and not env.has(f.id):
             name = f.id
             if name in ("len", "sum", "list", "all", "any", "getattr") and e.keywords:
                 fail(e, "keyword arguments")
             if name == "len" and len(e.args) == 1:
                 a = self.pure(fn, e.args[0], env)
+                if isinstance(a.ty, tuple) and a.ty[0] == "opt" and isinstance(a.ty[1], tuple) and a.ty[1][0] == "list":
+                    a = self.force(fn, V(a.pre, app("py_iter_opt", a.term), a.ty[1], True))    # len(None): TypeError
                 if not (isinstance(a.ty, tuple) and a.ty[0] == "list"):
                     fail(e, f"len of a {a.ty}")
                 return V(a.pre, app("len", a.term), INT)
@@ -1108,6 +1147,26 @@ class Translator:
                 return V(a.pre, a.term, a.ty, False, True)
             if name in ("any", "all") and len(e.args) == 1:
                 return self.any_all(fn, e, env, name)
+            if name == "chr" and len(e.args) == 1 and not e.keywords:
+                a = self.pure(fn, e.args[0], env)
+                if a.ty != INT:
+                    fail(e, f"chr of a {a.ty}")
+                return V(a.pre, app("py_chr", a.term), CHAR, True)
+            if name == "ord" and len(e.args) == 1 and not e.keywords:
+                a = self.pure(fn, e.args[0], env)
+                if a.lit is not None and len(a.lit) == 1:
+                    return V(a.pre, f'ch "{a.lit}"', INT)
+                if a.ty == CHAR:
+                    return V(a.pre, a.term, INT)
+                fail(e, "ord of something that is not one character")
+            if name == "dict" and len(e.args) == 1 and not e.keywords and isinstance(e.args[0], ast.GeneratorExp):
+                g = e.args[0]
+                if len(g.generators) != 1 or g.generators[0].ifs or not (isinstance(g.elt, ast.Tuple) and len(g.elt.elts) == 2):
+                    fail(e, "dict(generator of pairs) expected")
+                dc = ast.DictComp(key=g.elt.elts[0], value=g.elt.elts[1], generators=g.generators)
+                ast.copy_location(dc, e)
+                ast.fix_missing_locations(dc)
+                return self.expr0(fn, dc, env)
             if name == "abs" and len(e.args) == 1 and not e.keywords:
                 a = self.pure(fn, e.args[0], env)
                 if a.ty == FLOAT:
@@ -1700,6 +1759,8 @@ class Translator:
                 fail(node, "a variable holding None")
             if env.has(target.id):      # a variable keeps its type
                 ty = unify(env.get(target.id)[1], ty, node)
+            if ty == L(None) and target.id in self.local_hints.get((fn.module, fn.qual), {}):
+                ty = self.local_hints[(fn.module, fn.qual)][target.id]
             if ty == L(None) and fn.body is not None:
                 # x = []: the element type from the first x.append(e) whose e can be typed here
                 for n in ast.walk(fn.body):
@@ -2507,6 +2568,31 @@ class Translator:
             "Import ListNotations.\nOpen Scope Z_scope.\n")
         return head + "\n" + "\n\n".join(self.out) + "\n"
 
+    def run_ptn(self):
+        """fifth output: tak/ptn/ptn.py format_move (+ place_rmap, slide_map, slide_rmap) -> gen/PtnGen.v"""
+        self.begin_output("GameGen.", "PtnGen")
+        m = "ptn"
+        self.str_codepoints = True
+        self.do_dict_const(m, "place_rmap", MTYPE, L(CHAR))
+        self.do_dict_const(m, "slide_map", L(CHAR), MTYPE)
+        self.do_const(m, "slide_rmap", "slide_rmap", self.module_assign(m, "slide_rmap"), f"{m}.py: slide_rmap")
+        self.local_hints[(m, "format_move")] = {"bits": L(PYVAL)}      # the list holds strings and one int
+        self.coq_names.add("format_move")
+        self.do_function(m, "format_move", "format_move", [MOVE], L(CHAR), [])
+        self.str_codepoints = False
+        digest = hashlib.sha256(self.src[m].encode()).hexdigest()[:16]
+        head = (
+            "(* GENERATED by harness/py2coq.py from python/tak/ptn/ptn.py of the tree under test - do not edit.\n"
+            "   format_move with place_rmap / slide_map / slide_rmap, written against model/PySem.v; a str is the list of its\n"
+            "   code points, the list `bits` holds strings and ints (pyval).  parse_move / PTN.parse (regular expressions)\n"
+            "   are not translated.\n"
+            f"   sha256 of the source: {digest} *)\n"
+            "From Coq Require Import ZArith String List Bool.\n"
+            "From TV Require Import model.Tak model.Road model.PySem.\n"
+            "From TV Require gen.GameGen.\n"
+            "Import ListNotations.\nOpen Scope Z_scope.\n")
+        return head + "\n" + "\n\n".join(self.out) + "\n"
+
     # ------------------------------------------------------------------ driver
     def run(self):
         self.coq_names |= {t[2] for t in TARGETS} | {"DIRECTIONS"} | \
@@ -2607,10 +2693,19 @@ def translate_selfplay(repo_python):
     return _guarded(f)
 
 
+def translate_ptn(repo_python):
+    """gen/PtnGen.v: (coq text, error or None)"""
+    def f():
+        t = Translator(read_sources(repo_python, extra=("ptn",)))
+        t.run()
+        return t.run_ptn()
+    return _guarded(f)
+
+
 def main():
     repo_python = sys.argv[1] if len(sys.argv) > 1 else "/repo/python"
     which = sys.argv[2] if len(sys.argv) > 2 else "game"
-    text, err = {"game": translate, "encoding": translate_encoding, "tps": translate_tps, "selfplay": translate_selfplay}[which](repo_python)
+    text, err = {"game": translate, "encoding": translate_encoding, "tps": translate_tps, "selfplay": translate_selfplay, "ptn": translate_ptn}[which](repo_python)
     sys.stdout.write(text)
     if err:
         sys.stderr.write("TRANSLATION FAILED: " + err + "\n")
